@@ -680,6 +680,18 @@ Definition metric_payload (id t0 t1 : list N) (count : N) (ms : list metric_entr
     Some (b ++ [RBR; RBR])
   end.
 
+(* MetricTable bookkeeping that decides the trailing comma: mt.count against the keys of mt.metrics.
+   mergeMetric is the only writer of both (AddRaw/AddCount/AddValue/Merge/MergeFailed/ApplyRules go through it). *)
+Record mtab := { mt_count : N; mt_keys : list (list N * list N) }.
+Definition mt_new : mtab := {| mt_count := 0; mt_keys := [] |}.
+(* refused = mt.full() && m.forced == Unforced *)
+Definition mt_merge (t : mtab) (op : (list N * list N) * bool) : mtab :=
+  let (k, refused) := op in
+  if existsb (fun k' => bytes_eqb (fst k) (fst k') && bytes_eqb (snd k) (snd k')) (mt_keys t) then t   (* aggregate into the entry *)
+  else if refused then t                                                                             (* numDropped++ *)
+  else {| mt_count := N.succ (mt_count t); mt_keys := k :: mt_keys t |}.
+Definition mt_run (ops : list ((list N * list N) * bool)) : mtab := fold_left mt_merge ops mt_new.
+
 (* ------------------------------------------------------------------ analyticsEvents.CollectorJSON *)
 
 Definition s_reservoir : list N := Eval vm_compute in bs_of "{""reservoir_size"":".
